@@ -49,6 +49,16 @@ func C11(e *core.Env) int {
 			cases = append(cases, c)
 		}
 	}
+	// update methods that carry a default they never apply, with their own target type recurring at an inline
+	// T -> *U position (the update monitor judges them)
+	for i := 0; i < tierN(e, 12, 120); i++ {
+		cr := rand.New(rand.NewSource(r.Int63()))
+		name := fmt.Sprintf("qu%04d", i)
+		uc := pgen.UpdateCase(cr, name, pgen.UpdateOpts{Format: formats[i%3], Seed: e.Seed*227 + int64(i), NValues: nv / 2, UnusedDefault: true})
+		uc.Feature("shape", "unuseddefault")
+		expectOK[name] = true
+		cases = append(cases, uc)
+	}
 	p, err := runPipelineOpts(e, "c11", cases, pipeOpts{Execute: true})
 	if err != nil {
 		rep.Inconclusive = append(rep.Inconclusive, err.Error())
@@ -79,7 +89,8 @@ func C11(e *core.Env) int {
 	}
 	p.Mod.Cases = pos
 	kinds := map[string]bool{"panic": true, "value": true, "unexpected_error": true, "fatal": true, "source_modified": true,
-		"default_nil_result": true, "default_nil_source": true, "default_ignored_field": true, "default_replace": true, "default_update_zero": true, "default_value": true}
+		"default_nil_result": true, "default_nil_source": true, "default_ignored_field": true, "default_replace": true, "default_update_zero": true, "default_value": true,
+		"update_overwrote": true, "update_value": true, "update_nil_source": true, "update_results": true}
 	foldRuntime(rep, p, kinds, func(cr *core.CaseRun) bool {
 		for _, me := range cr.Methods {
 			if me.Judged > 0 {
